@@ -15,7 +15,7 @@ demo() {
   dest=$WT/zz_seed_demo_test.go
   case "$pkgline" in *refopts*) dest=$WT/internal/refopts/zz_seed_demo_test.go;; *sizes*) dest=$WT/sizes/zz_seed_demo_test.go;; *"package git"*) dest=$WT/git/zz_seed_demo_test.go;; *"package meter"*) dest=$WT/meter/zz_seed_demo_test.go;; *"package counts"*) dest=$WT/counts/zz_seed_demo_test.go;; esac
   cp $f $dest
-  (cd $(dirname $dest) && go test -vet=off -count=1 -run 'Demo|Seed|TestC1' . ) >$OUT/$X.demo.log 2>&1; rc=$?
+  (cd $(dirname $dest) && go test -vet=off -count=1 -run 'Demo|Seed|TestC[01]' . ) >$OUT/$X.demo.log 2>&1; rc=$?
   rm -f $dest; return $rc
 }
 git apply $OUT/$X.patch.diff || { echo "patch does not apply"; exit 1; }
